@@ -62,7 +62,7 @@ Boundary ==
    fixed_max_order |-> {0, 3, 4, 5, 9, Huge},
    partitions |-> {BitCount, 0, 1, 16, 64, 65, Huge},
    lpc_order |-> {0, 1, 10, 24, 25, 33, Huge},
-   quant_precision |-> {0, 1, 15, 16, Huge},
+   quant_precision |-> {0, 1, 3, 15, 16, Huge},
    use_direct_mse |-> {FALSE, TRUE},
    mae_steps |-> {0, 1, 3},
    \* "third" 1/3, "sqrth" 0.70710677, "below1" 1 - 2^-24, "minpos" the smallest normal f32 (all need full float
